@@ -53,6 +53,7 @@ type Ctx struct {
 	ruleCount   map[string]int
 	seenKeys    map[string]bool
 	Quiet       bool
+	OutDir      string // evidence output directory (default <verif>/evidence)
 }
 
 func NewCtx(p *Prog, property, tier, verifdir string) *Ctx {
@@ -189,7 +190,10 @@ func (c *Ctx) Finish(seed int) int {
 		return 1
 	}
 	exit := 0
-	vdir := filepath.Join(c.Verifdir, "evidence", "violations")
+	if c.OutDir == "" {
+		c.OutDir = filepath.Join(c.Verifdir, "evidence")
+	}
+	vdir := filepath.Join(c.OutDir, "violations")
 	// remove stale replay files of this property
 	if ents, err := os.ReadDir(vdir); err == nil {
 		for _, e := range ents {
@@ -296,9 +300,9 @@ func (c *Ctx) Finish(seed int) int {
 			"buffer lengths and bit positions are below 2^28 (R-ranges)",
 		}, c.Assumptions...),
 		WallS: time.Since(c.Start).Seconds(), Violations: nviol}
-	os.MkdirAll(filepath.Join(c.Verifdir, "evidence"), 0o755)
+	os.MkdirAll(c.OutDir, 0o755)
 	b, _ := json.MarshalIndent(ev, "", " ")
-	if err := os.WriteFile(filepath.Join(c.Verifdir, "evidence", c.Property+".json"), append(b, '\n'), 0o644); err != nil {
+	if err := os.WriteFile(filepath.Join(c.OutDir, c.Property+".json"), append(b, '\n'), 0o644); err != nil {
 		fmt.Printf("error: cannot write evidence: %v\n", err)
 		return 1
 	}
